@@ -9,6 +9,10 @@
 // not preempt it at plain yields meanwhile (only where it goes on to acquire another lock), so no task is
 // ever parked holding a mutex that a goroutine outside the simulator's control could block on.
 //
+// A send statement on a buffered channel is preceded by a readiness probe (room in the buffer), so that a
+// task that would block there waits in the simulator, where the wait can be scheduled and, if it never
+// ends, reported.
+//
 // Where nothing may be inserted (the caller does not hold the scheduler's token there):
 //   - before a statement that itself calls simhook.* (TaskStart, AfterBlock, ... come first),
 //   - before a select statement and right after a statement calling simhook.BeforeBlock or simhook.Spawn,
@@ -33,7 +37,7 @@ import (
 
 var fset *token.FileSet
 var base string
-var inserted, locks int
+var inserted, locks, sends int
 
 func callsSimhook(n ast.Node, name string) bool {
 	found := false
@@ -74,6 +78,23 @@ func lockProbe(call *ast.CallExpr, sel *ast.SelectorExpr) ast.Stmt {
 	}
 	src := fmt.Sprintf("package p\nfunc f() { simhook.AwaitLock(%q, &%s, %s) }",
 		kind+base+":"+strconv.Itoa(fset.Position(call.Pos()).Line), recv, read)
+	f, err := parser.ParseFile(token.NewFileSet(), "", src, 0)
+	if err != nil {
+		panic(err)
+	}
+	return f.Decls[0].(*ast.FuncDecl).Body.List[0]
+}
+
+// sendProbe returns, for a send statement `ch <- v` on a buffered channel, a block that parks the task in
+// the simulator until the channel has room (an unbuffered channel is let through: whether a partner is
+// there cannot be seen from here). The channel value is copied when the block runs; the probe the
+// scheduler evaluates later looks at nothing else.
+func sendProbe(st *ast.SendStmt) ast.Stmt {
+	var buf bytes.Buffer
+	format.Node(&buf, fset, st.Chan)
+	ch := buf.String()
+	src := fmt.Sprintf("package p\nfunc f() { { simCh := %s; simhook.Await(%q, nil, func() bool { return cap(simCh) == 0 || len(simCh) < cap(simCh) }) } }",
+		ch, "auto.send:"+base+":"+strconv.Itoa(fset.Position(st.Pos()).Line))
 	f, err := parser.ParseFile(token.NewFileSet(), "", src, 0)
 	if err != nil {
 		panic(err)
@@ -142,6 +163,11 @@ func rewriteList(list []ast.Stmt, from int, firstAllowed bool) []ast.Stmt {
 			if c, sel, ok := isLockCall(s); ok {
 				out = append(out, lockProbe(c, sel))
 				locks++
+			} else if snd, ok := s.(*ast.SendStmt); ok {
+				out = append(out, yieldStmt(s.Pos()))
+				out = append(out, sendProbe(snd))
+				inserted++
+				sends++
 			} else {
 				out = append(out, yieldStmt(s.Pos()))
 				inserted++
@@ -255,7 +281,7 @@ func main() {
 	for _, path := range os.Args[1:] {
 		fset = token.NewFileSet()
 		base = filepath.Base(path)
-		inserted, locks = 0, 0
+		inserted, locks, sends = 0, 0, 0
 		f, err := parser.ParseFile(fset, path, nil, parser.ParseComments)
 		if err != nil {
 			fmt.Fprintln(os.Stderr, "autoyield:", err)
@@ -310,6 +336,6 @@ func main() {
 			fmt.Fprintln(os.Stderr, "autoyield:", err)
 			os.Exit(1)
 		}
-		fmt.Printf("autoyield: %s: %d yields, %d lock probes\n", path, inserted, locks)
+		fmt.Printf("autoyield: %s: %d yields, %d lock probes, %d send probes\n", path, inserted, locks, sends)
 	}
 }
